@@ -645,8 +645,10 @@ class Interp:
                     return a if txt == 'min' else b
                 if T.nonneg(a - b):
                     return b if txt == 'min' else a
-                return MultiVal([a, b], [[('%s picks %s' % (txt, U(args[0])), True)],
-                                         [('%s picks %s' % (txt, U(args[0])), False)]])
+                key = '%s picks %s' % (txt, U(args[0]))
+                self.cond_polys = getattr(self, 'cond_polys', {})
+                self.cond_polys[key] = (txt, a, b)
+                return MultiVal([a, b], [[(key, True)], [(key, False)]])
             return Opaque(U(e))
         if last == 'zeros' and args:
             shp = self.eval(args[0], st, func, selfobj)
@@ -817,6 +819,20 @@ class Interp:
             return [Outcome(st, 'fall')]
         if isinstance(s, ast.Assign):
             v = self.eval(s.value, st, func, selfobj)
+            if isinstance(s.value, ast.IfExp) and isinstance(v, Opaque):
+                # undecidable conditional expression at statement level: fork like an `if` statement
+                a = self.eval(s.value.body, st, func, selfobj)
+                b = self.eval(s.value.orelse, st, func, selfobj)
+                t = s.value.test
+                key = 'ifexp ' + U(t)
+                # only comparisons between index polynomials are forked; `x is None` defaulting stays one general value
+                if isinstance(t, ast.Compare) and len(t.ops) == 1 and isinstance(a, Poly) and isinstance(b, Poly):
+                    l = self.eval(t.left, st, func, selfobj)
+                    r = self.eval(t.comparators[0], st, func, selfobj)
+                    if isinstance(l, Poly) and isinstance(r, Poly):
+                        self.cond_polys = getattr(self, 'cond_polys', {})
+                        self.cond_polys[key] = (type(t.ops[0]).__name__, l, r)
+                        v = MultiVal([a, b], [[(key, True)], [(key, False)]])
             if isinstance(v, MultiVal):
                 outs = []
                 for val, conds in zip(v.vals, v.conds):
